@@ -83,6 +83,8 @@ fn run_once_with(p: &Program, prefix: &[usize], sticky: bool) -> RunResult {
         let roots = base.roots.clone();
         let shared = base.shared.clone();
         let set_times = base.set_times.clone();
+        // the handles the setup left open belong to the first thread
+        let handles = if t == 0 { std::mem::take(&mut base.handles) } else { Default::default() };
         let sched2 = sched.clone();
         let results2 = results.clone();
         joins.push(std::thread::spawn(move || {
@@ -101,6 +103,7 @@ fn run_once_with(p: &Program, prefix: &[usize], sticky: bool) -> RunResult {
             c.roots = roots;
             c.shared = shared;
             c.set_times = set_times;
+            c.handles = handles;
             let mut out = vec![];
             for (i, l) in ops.iter().enumerate() {
                 let toks: Vec<&str> = l.split(' ').collect();
@@ -193,6 +196,9 @@ fn sequential(p: &Program, out: &mut BTreeSet<String>) {
                     c
                 })
                 .collect();
+            if n > 0 {
+                cs[0].handles = std::mem::take(&mut base.handles);
+            }
             let mut res = vec![vec![]; n];
             let mut idx = vec![0usize; n];
             for &t in order.iter() {
@@ -239,12 +245,14 @@ fn run_program(p: &Program) {
                 let roots = base.roots.clone();
                 let shared = base.shared.clone();
                 let set_times = base.set_times.clone();
+                let handles = if t == 0 { std::mem::take(&mut base.handles) } else { Default::default() };
                 let b = barrier.clone();
                 joins.push(std::thread::spawn(move || {
                     let mut c = Case::new("t", true);
                     c.roots = roots;
                     c.shared = shared;
                     c.set_times = set_times;
+                    c.handles = handles;
                     b.wait();
                     let mut out = vec![];
                     for (i, l) in ops.iter().enumerate() {
